@@ -565,3 +565,11 @@ CHECKS['C09']['props'] = CHECKS['C09']['props'] + ['ZanVerif.Props.C09Hash']
 CHECKS['C09']['level_text'] = CHECKS['C09']['level_text'] + (" HASH (Props/C09Hash): the size invariant is preserved by HDEL and HCLEAR too, hence "
     "C09H_reachable: after ANY sequence of HSET/HDEL/HCLEAR, HLEN = number of enumerated fields and meta present <=> non-empty, for every key (abstract codec facts of C12; "
     "the executable functions diffed by `datacore` are these by rfl).")
+
+# C01, membership: the pending-configuration-change guard of raft.hup (regenerated: Gen/Hup.lean) over the C02 log-layer model
+_p = CHECKS['C01']['props']
+CHECKS['C01']['props'] = (_p if isinstance(_p, list) else [_p]) + ['ZanVerif.Props.C01Hup']
+CHECKS['C01']['gens'] = CHECKS['C01']['gens'] + ['Hup']
+CHECKS['C01']['level_text'] = CHECKS['C01']['level_text'] + (" MEMBERSHIP (Props/C01Hup): over the REGENERATED guard of raft.hup (scan of applied+1..committed with noLimit, blocking test, "
+    "numOfPendingConf, campaign only behind the guard) and the function-by-function log model of C02: C01_no_campaign_with_pending_conf_change — for every well-formed log a replica that goes "
+    "on to campaign has NO configuration change among its committed-but-unapplied entries, however many bytes of ordinary entries precede it (C01_hup_scan_complete, witness of a size-limited scan missing one).")
